@@ -39,6 +39,8 @@ func dashIfEmpty(s string) string {
 	return s
 }
 
+var userDefs [][]string
+
 type engineCtx struct {
 	id        string
 	model     nextroute.Model
@@ -341,6 +343,56 @@ func (c *engineCtx) format(id string, step int, sol nextroute.Solution) {
 	fmt.Fprintf(out, "%s objective %s | %s\n", p, num(o.Objective.Value), strings.Join(terms, " "))
 }
 
+// userCons is a user-written constraint (C19): exact check only, the estimate
+// always answers "not violated".
+type userCons struct {
+	ctx      *engineCtx
+	field    string
+	r        int
+	max      float64
+	vehLevel bool
+	temporal bool
+	id       int
+}
+
+func (u *userCons) EstimateIsViolated(nextroute.Move) (bool, nextroute.StopPositionsHint) {
+	return false, nextroute.NoPositionsHint()
+}
+func (u *userCons) String() string   { return fmt.Sprintf("user_%d", u.id) }
+func (u *userCons) IsTemporal() bool { return u.temporal }
+func (u *userCons) value(s nextroute.SolutionStop) float64 {
+	switch u.field {
+	case "pos":
+		return float64(s.Position())
+	case "arrival":
+		return s.ArrivalValue()
+	case "start":
+		return s.StartValue()
+	case "end":
+		return s.EndValue()
+	case "cumtravel":
+		return s.CumulativeTravelDurationValue()
+	case "wait":
+		return s.StartValue() - s.ArrivalValue()
+	case "level":
+		if u.r < len(u.ctx.resExprs) && u.ctx.resExprs[u.r] != nil {
+			return s.CumulativeValue(u.ctx.resExprs[u.r])
+		}
+		return 0
+	}
+	return 0
+}
+
+type userStopCons struct{ userCons }
+
+func (u *userStopCons) DoesStopHaveViolations(s nextroute.SolutionStop) bool { return u.value(s) > u.max }
+
+type userVehicleCons struct{ userCons }
+
+func (u *userVehicleCons) DoesVehicleHaveViolations(v nextroute.SolutionVehicle) bool {
+	return u.value(v.Last()) > u.max
+}
+
 func runEngine(b block) {
 	defer func() {
 		if r := recover(); r != nil {
@@ -385,6 +437,8 @@ func runEngine(b block) {
 			if err := json.Unmarshal([]byte(strings.TrimPrefix(raw, "gopt ")), &opts); err != nil {
 				panic(err)
 			}
+		case "user":
+			userDefs = append(userDefs, fs)
 		case "build":
 			model, err := factory.NewModel(input, opts)
 			if err != nil {
@@ -394,6 +448,7 @@ func runEngine(b block) {
 			}
 			c.model = model
 			c.nInput = len(input.Stops)
+			defer func() { userDefs = nil }()
 			resNames := fs[1:]
 			c.resExprs = make([]nextroute.ModelExpression, len(resNames))
 			for _, k := range model.Constraints() {
@@ -410,6 +465,23 @@ func runEngine(b block) {
 				}
 				if _, ok := k.(nextroute.MaximumWaitVehicleConstraint); ok {
 					c.waitVeh = k
+				}
+			}
+			for i, fsu := range userDefs {
+				mx, _ := strconv.ParseFloat(fsu[2], 64)
+				base := userCons{ctx: c, field: fsu[1], max: mx, vehLevel: fsu[3] == "1", temporal: fsu[4] == "1", id: i}
+				if strings.HasPrefix(fsu[1], "level") {
+					base.field = "level"
+					base.r, _ = strconv.Atoi(strings.TrimPrefix(fsu[1], "level"))
+				}
+				var err error
+				if base.vehLevel {
+					err = model.AddConstraint(&userVehicleCons{base})
+				} else {
+					err = model.AddConstraint(&userStopCons{base})
+				}
+				if err != nil {
+					panic(err)
 				}
 			}
 			sol, err := nextroute.NewSolution(model)
